@@ -209,6 +209,10 @@ static void run_case(vh_ctx *c)
   tk = (size_t)vh_int(c, 2, 8);
   while (ts > 1 && ts * nsel > 160) ts--;                       /* thread start-up budget of the case */
 
+  /* units (third seeded wave, side PRNG stream): a tenth of the cases in small units (x 1e-3 .. 1e-2), a tenth in large ones (x 1e6 .. 1e8);
+     the selection rules and the cosine are scale free, absolute guards inside the library are not */
+  { vh_ctx cc = *c; double u; cc.s[2] ^= 0x3C79AC492BA7B653ULL; (void)vh_u64(&cc); (void)vh_u64(&cc); u = vh_unif(&cc);
+    if (u < 0.1) { sc *= pow(10.0, vh_range(&cc, -3.0, -2.0)); vh_obs("cases_in_small_units", 1); } else if (u < 0.2) { sc *= pow(10.0, vh_range(&cc, 6.0, 8.0)); vh_obs("cases_in_large_units", 1); } }
   NewMatrix(&m, n, p);
   centers = calloc(ncl * p + 1, sizeof(double));
   for (i = 0; i < ncl * p; i++) centers[i] = 4.0 * sc * vh_gauss(c);
